@@ -209,3 +209,139 @@ Example C01_generated_link_example :
     (match py_link (model_linker {| mw := [1]; mR2 := 9 |} 0 30) f (Some ["x"%string]) "frame"%string with ROk g => Some g | RRaise _ => None end)
   = Some ([1%nat; 0%nat], [0; 1], [1; 3]).
 Proof. vm_compute. reflexivity. Qed.
+
+(* ===== The sort inside link is NOT stable: the generated link for an arbitrary sort oracle ==========
+   trackpy.link sorts its copy of the table with pandas_sort(f, t_column, inplace=True), which is
+   DataFrame.sort_values with pandas' default kind (quicksort): rows with the same frame number may come
+   back in any order.  C01_generated_link / C01_generated_rows_preserved above are about py_link, in which
+   that sort is read as the stable one.  Gen/coords.v also contains py_link_srt: the same statements of
+   link, translated by the same run of the translator, with the sort as a parameter
+        srt : sort_oracle  =  (drow -> Z) -> list drow -> list drow        (key of a row, rows) |-> rows
+   of which the theorems below assume ONLY (Model/SortOracle.v)
+        sort_ok srt  :=  forall key l, Permutation (srt key l) l /\ sorted_by key (srt key l)
+        sorted_by key l : every element's key is <= the keys of all elements after it.
+   coerce_frame tc f r is link's `f[t_column] = f[t_column].astype(np.int64)` on one row (the cell is
+   re-written with its own value when the column's dtype is not an integer type; otherwise r itself). *)
+From TP Require Import Model.SortOracle Proofs.CoordsGen2.
+
+(* the hypothesis is satisfiable: by the stable sort, and by sorts that are not stable (equal keys come
+   back reversed / ordered by descending identity) *)
+Theorem C01_sort_oracles_ok : sort_ok stable_sort /\ sort_ok reversing_sort /\ sort_ok id_desc_sort.
+Proof. exact (conj stable_sort_ok (conj reversing_sort_ok id_desc_sort_ok)). Qed.
+Print Assumptions C01_sort_oracles_ok.
+
+(* py_link (all theorems above) is the instance srt := stable_sort of py_link_srt *)
+Theorem C01_generated_link_is_stable_instance : forall L f pcs tc,
+  py_link L f pcs tc = py_link_srt stable_sort L f pcs tc.
+Proof. exact py_link_is_stable_instance. Qed.
+Print Assumptions C01_generated_link_is_stable_instance.
+
+(* generated link, EVERY sort oracle with sort_ok: there is an order S of the caller's rows - a permutation
+   of them, ordered by the frame column, and it is the order the oracle chose (up to the frame coercion of
+   the cells) - such that link behaves as Model/LinkTable.v's link_table on the rows in that order: the
+   returned table g has the rows S in this order (same identities, every cell other than 'particle'
+   unchanged), row k carries the label link_table gives to row k (the labels stay with their rows: the
+   second, stable sort inside coords_from_df finds the table ordered and changes nothing), an oversize
+   subnet in the model is SubnetOversizeException. *)
+Theorem C01_generated_link_any_sort : forall m mem max_size srt f pcs tc,
+  sort_ok srt -> metric_ok m ->
+  let pc := match pcs with Some v => v | None => guess_pos_columns f end in
+  has_col tc f = true -> has_cols pc f = true -> df_rows f <> [] -> ~ In "particle"%string (tc :: pc) ->
+  exists S, Permutation S (df_rows f) /\ sorted_by (cell tc) S /\
+    map (coerce_frame tc f) S = srt (cell tc) (map (coerce_frame tc f) (df_rows f)) /\
+    match link_table m mem max_size (map (row_of pc tc) S) with
+    | Oversize => py_link_srt srt (model_linker m mem max_size) f pcs tc = RRaise EOversize
+    | Ok out => exists g, py_link_srt srt (model_linker m mem max_size) f pcs tc = ROk g /\
+        map fst out = map (row_of pc tc) S /\
+        map (row_of pc tc) (df_rows g) = map fst out /\
+        map d_id (df_rows g) = map d_id S /\
+        (forall c, c <> "particle"%string -> map (cell c) (df_rows g) = map (cell c) S) /\
+        map (cell "particle") (df_rows g) = map Z.of_nat (map snd out)
+    end.
+Proof. exact py_link_srt_eq. Qed.
+Print Assumptions C01_generated_link_any_sort.
+
+(* C01's statement for the generated link, EVERY sort oracle with sort_ok.  Whenever a table g is returned:
+   the rows of g are a permutation S of the caller's rows (identities), ordered by the frame column, every
+   cell other than 'particle' as the caller gave it - only the particle column is added;
+   the frames handed to the linker (one per frame number from the smallest to the largest, empty for
+   missing numbers) are the caller's frames up to the order WITHIN each frame - the only thing the oracle
+   decides; the rows of g are those frames concatenated and the particle column is the concatenation of
+   per-frame label lists in the same order (each row carries the label the linker gave to its own
+   position), one label per row of a frame and no label twice in a frame.
+   NOT invariant under the order within a frame (and not claimed): the integer a trajectory starting in a
+   frame is named by (fresh ids follow the order of the frame's rows) and the choice between candidate
+   linkings of equal total cost. *)
+Theorem C01_generated_rows_preserved_any_sort : forall m mem max_size srt f pcs tc g,
+  sort_ok srt -> metric_ok m ->
+  let pc := match pcs with Some v => v | None => guess_pos_columns f end in
+  has_col tc f = true -> has_cols pc f = true -> df_rows f <> [] -> ~ In "particle"%string (tc :: pc) ->
+  py_link_srt srt (model_linker m mem max_size) f pcs tc = ROk g ->
+  exists S, Permutation S (df_rows f) /\ sorted_by (cell tc) S /\
+    map (coerce_frame tc f) S = srt (cell tc) (map (coerce_frame tc f) (df_rows f)) /\
+    map d_id (df_rows g) = map d_id S /\
+    (forall c, c <> "particle"%string -> map (cell c) (df_rows g) = map (cell c) S) /\
+    Permutation (map d_id (df_rows g)) (map d_id (df_rows f)) /\ List.length (df_rows g) = List.length (df_rows f) /\
+    sorted_by (cell tc) (df_rows g) /\
+    let frs := table_frames (map (row_of pc tc) S) in
+    Forall2 (@Permutation row) frs (table_frames (rows_of pc tc f)) /\
+    exists labs, Forall2 (fun ds lb => List.length lb = List.length ds /\ NoDup lb) (map (map r_pos) frs) labs /\
+                 map (row_of pc tc) (df_rows g) = List.concat frs /\
+                 map (cell "particle") (df_rows g) = map Z.of_nat (List.concat labs).
+Proof. exact gen_link_srt_valid. Qed.
+Print Assumptions C01_generated_rows_preserved_any_sort.
+
+(* .. read on the returned table itself: every label is a non-negative integer and two different rows with
+   the same frame number never carry the same label - whatever the sort did within the frames *)
+Theorem C01_generated_labels_distinct_any_sort : forall m mem max_size srt f pcs tc g,
+  sort_ok srt -> metric_ok m ->
+  let pc := match pcs with Some v => v | None => guess_pos_columns f end in
+  has_col tc f = true -> has_cols pc f = true -> df_rows f <> [] -> ~ In "particle"%string (tc :: pc) ->
+  py_link_srt srt (model_linker m mem max_size) f pcs tc = ROk g ->
+  Forall (fun r => 0 <= cell "particle" r) (df_rows g) /\
+  forall i j ri rj, nth_error (df_rows g) i = Some ri -> nth_error (df_rows g) j = Some rj -> i <> j ->
+    cell tc ri = cell tc rj -> cell "particle" ri <> cell "particle" rj.
+Proof. exact gen_link_srt_labels_distinct. Qed.
+Print Assumptions C01_generated_labels_distinct_any_sort.
+
+(* the frames of a table (Model/LinkTable.v) depend on the order of its rows only through the order within
+   each frame: same frame numbers, same rows per frame *)
+Theorem C01_frames_up_to_order_within_frame : forall rows rows',
+  Permutation rows rows' -> Forall2 (@Permutation row) (table_frames rows) (table_frames rows').
+Proof. exact table_frames_frames_perm. Qed.
+Print Assumptions C01_frames_up_to_order_within_frame.
+
+(* the old statement about the stable order, as the instance srt := stable_sort of the parametrised link *)
+Theorem C01_generated_link_stable_instance : forall m mem max_size f pcs tc,
+  metric_ok m ->
+  let pc := match pcs with Some v => v | None => guess_pos_columns f end in
+  has_col tc f = true -> has_cols pc f = true -> df_rows f <> [] -> ~ In "particle"%string (tc :: pc) ->
+  let S := stable_sort (cell tc) (df_rows f) in
+  match link_table m mem max_size (rows_of pc tc f) with
+  | Oversize => py_link_srt stable_sort (model_linker m mem max_size) f pcs tc = RRaise EOversize
+  | Ok out => exists g, py_link_srt stable_sort (model_linker m mem max_size) f pcs tc = ROk g /\
+      map fst out = map (row_of pc tc) S /\
+      map (row_of pc tc) (df_rows g) = map fst out /\
+      map d_id (df_rows g) = map d_id S /\
+      (forall c, c <> "particle"%string -> map (cell c) (df_rows g) = map (cell c) S) /\
+      map (cell "particle") (df_rows g) = map Z.of_nat (map snd out)
+  end.
+Proof. exact py_link_eq. Qed.
+Print Assumptions C01_generated_link_stable_instance.
+
+(* non-vacuity, with an order within a frame that no stable sort produces: two rows in frame 0, two in
+   frame 1.  The stable sort returns the identities 0 1 | 2 3, the reversing oracle 1 0 | 3 2.  Either way
+   the labels follow the rows: the same two trajectories {0, 3} and {1, 2} - but they are NAMED the other
+   way round, because fresh ids follow the order of the rows of frame 0. *)
+Example C01_generated_link_unstable_example :
+  let f := {| df_columns := ["x"; "frame"]%string; df_float := ["frame"%string];
+              df_rows := [ {| d_id := 0; d_cells := [("x"%string, 1); ("frame"%string, 0)] |};
+                           {| d_id := 1; d_cells := [("x"%string, 10); ("frame"%string, 0)] |};
+                           {| d_id := 2; d_cells := [("x"%string, 11); ("frame"%string, 1)] |};
+                           {| d_id := 3; d_cells := [("x"%string, 2); ("frame"%string, 1)] |} ] |} in
+  let run srt :=
+    option_map (fun g => (map d_id (df_rows g), map (cell "particle") (df_rows g), map (cell "frame") (df_rows g), map (cell "x") (df_rows g)))
+      (match py_link_srt srt (model_linker {| mw := [1]; mR2 := 9 |} 0 30) f (Some ["x"%string]) "frame"%string with ROk g => Some g | RRaise _ => None end) in
+  run stable_sort    = Some ([0%nat; 1%nat; 2%nat; 3%nat], [0; 1; 1; 0], [0; 0; 1; 1], [1; 10; 11; 2]) /\
+  run reversing_sort = Some ([1%nat; 0%nat; 3%nat; 2%nat], [0; 1; 1; 0], [0; 0; 1; 1], [10; 1; 2; 11]).
+Proof. vm_compute. split; reflexivity. Qed.
